@@ -337,12 +337,56 @@ func (s *State) known(c *Expr) (val bool, ok bool) {
 	return false, false
 }
 
+// coreCache: for a literal L, sets of constraints C such that C ∧ L is unsat.
+var coreCache = map[*Expr][][]*Expr{}
+
+func (s *State) coreHit(lit *Expr) bool {
+	for _, core := range coreCache[lit] {
+		ok := true
+		for _, c := range core {
+			if !s.pcSet[c] {
+				ok = false
+				break
+			}
+		}
+		if ok {
+			theSolver.CoreHit++
+			return true
+		}
+	}
+	return false
+}
+
+func rememberCore(lit *Expr) {
+	core := theSolver.LastCore
+	if core == nil {
+		return
+	}
+	var rest []*Expr
+	for _, c := range core {
+		if c != lit {
+			rest = append(rest, c)
+		}
+	}
+	if len(coreCache[lit]) < 64 {
+		coreCache[lit] = append(coreCache[lit], rest)
+	}
+}
+
 // feasible asks whether pc ∧ c is satisfiable. Unknown counts as feasible.
 func (s *State) feasible(c *Expr) (bool, Model) {
 	if c.IsFalse() {
 		return false, nil
 	}
+	if s.coreHit(c) {
+		return false, nil
+	}
+	theSolver.WantCore = true
 	r, m := theSolver.Check(append(append([]*Expr(nil), s.pc...), c), true)
+	theSolver.WantCore = false
+	if r == Unsat {
+		rememberCore(c)
+	}
 	stats.feasQueries++
 	if r == Unknown {
 		stats.feasUnknown++
@@ -530,9 +574,20 @@ func (s *State) check(cond *Expr, kind, msg string) bool {
 		return false
 	}
 	neg := Not(cond)
+	if s.coreHit(neg) {
+		stats.dischargedSolver++
+		stats.dischargedCore++
+		s.markKnown(cond)
+		return true
+	}
 	// model shortcut for detecting violations quickly is not sound for "unsat";
 	// always ask the solver.
+	theSolver.WantCore = true
 	r, m := theSolver.Check(append(append([]*Expr(nil), s.pc...), neg), true)
+	theSolver.WantCore = false
+	if r == Unsat {
+		rememberCore(neg)
+	}
 	stats.oblQueries++
 	switch r {
 	case Unsat:
